@@ -240,6 +240,12 @@ func oracle(c Case) *ev.Verdict {
 			// registering the type draws one more example
 			return ev.V("example:error:class-up-to-U+10FFFF-without-printable-ASCII", "AddType of accepted regex schema %q fails: %s", s, addErr)
 		}
+		if anchored && addErr != nil && addErr.Code == 1801 && strings.Contains(addErr.Message, "does not match") {
+			// (a type whose generated example does not match its own expression is refused when
+			// it is registered - with anchors or word boundaries inside the expression that is the generator's limit)
+			ev.Excluded("all", "type use skipped: the type's own generated example does not match its anchored pattern")
+			return nil
+		}
 		if addErr != nil {
 			return ev.V("type-use:addtype", "AddType of accepted regex schema %q fails: %s", s, addErr)
 		}
@@ -290,6 +296,10 @@ func oracle(c Case) *ev.Verdict {
 			for _, e := range errs {
 				if e != nil && e.Code == 1801 && hasHighClassWithoutASCII(pat) {
 					return ev.V("example:error:class-up-to-U+10FFFF-without-printable-ASCII", "AddType of accepted regex schema %q fails: %s", s, e)
+				}
+				if anchored && e != nil && e.Code == 1801 && strings.Contains(e.Message, "does not match") {
+					ev.Excluded("all", "type use skipped: the type's own generated example does not match its anchored pattern")
+					return nil
 				}
 				if e != nil {
 					return ev.V("type-use:addtype:"+u.name, "AddType fails for the project root %s, @mid = %s, @r = %s: %s", u.root, u.mid, s, e)
